@@ -15,6 +15,12 @@ tie:   scenarios (prefix table + control operations in real asyncio tasks + publ
        cache fully disabled every call must start its own execution at once, issue nothing and be handed its own
        execution's result (results identify the execution); @cache with and without `protected` is compared event
        by event with the overlapping-calls model (cstart/cfinish/cdrain of Model/Disable.lean).
+       The routing table is a STATE component: histories interleave commands with cache.setup() of new prefixes and
+       of prefixes registered already (backend replaced; enabled / configured as disabled in four spellings; initialised
+       or not; by any task), and every command is judged by the registrations made before it.  Every command x disabled
+       state is also run inside invalidate_further() and on never-initialised backends, and the trace records EVERYTHING
+       a backend object is asked to do (commands, the deletions invalidate_further() turns reads into, init()): a
+       disabled command must cause none of it (model: the default middleware stack, disable check outermost).
 """
 from __future__ import annotations
 
@@ -32,14 +38,17 @@ TRUSTED = [
     "Lean 4.33.0 kernel; axioms of every theorem audited to be within {propext, Classical.choice, Quot.sound}",
     "hand-written models lean/CashewsVerif/Model/Route.lean (wrapper.py _get_backend/_add_backend, commands.py grouping and "
     "re-assembly) and Model/Disable.lean (ControlMixin, _is_disable_middleware, TransactionBackend delegation, "
-    "DecoratorsWrapper bypass, overlapping calls with thunder_protection joins), tied to the code by this run's scenario "
-    "correspondence",
+    "DecoratorsWrapper bypass, overlapping calls with thunder_protection joins; the default middleware stack "
+    "[auto_init, invalidate, callbacks, disable] wrapped last-outermost; histories of setup()/init()/control/commands with the "
+    "table, the per-context invalidate_further() flag and the set of initialised backends as state), tied to the code by this "
+    "run's scenario correspondence",
     "Python str modelled as its list of code points with CPython's code-point lexicographic order; sorted() modelled as "
     "*any* strictly descending arrangement (theorem first_match_is_longest is stated for every such list)",
     "asyncio assumption A3 (DESIGN section 3): a task runs in a copy of its creator's context - modelled by `fork`, "
     "exercised here on the real event loop with real tasks",
-    "harness: recording subclasses of Memory / TransactionBackend / LockTransactionBackend (harness/routectl.py), "
-    "call-depth bookkeeping, canonicalisation; for overlapping decorated calls: bodies parked on asyncio.Event gates, "
+    "harness: recording subclasses of Memory / TransactionBackend / LockTransactionBackend (harness/routectl.py; every "
+    "Command method and init()), call-depth bookkeeping, canonicalisation, the harness' own bookkeeping of which task is inside "
+    "invalidate_further() (a ContextVar: inherited by child tasks, reset by leaving any block); for overlapping decorated calls: bodies parked on asyncio.Event gates, "
     "attribution of executions and backend commands to calls through a ContextVar inherited by the tasks cashews creates",
     "backend answers are symbolic in the model (the facade's answer is compared as a function of the recorded backend "
     "answers); positional answers of a backend's own get_many are C01's theorem get_many_positional",
@@ -51,8 +60,15 @@ PARTIAL = ("composite helpers (get_or_set, set/incr with tags, delete_tags, lock
            "with every read command disabled); while the cache is NOT fully disabled `protected=True` joins overlapping "
            "equal-key calls whatever commands are disabled (single-flight by design: mirrored by the model, not judged); "
            "bodies overlap at one scripted suspension point per execution (interleavings inside cashews' own awaits are "
-           "those of the real event loop, not enumerated); enable_by_default=False (never used by "
-           "cashews) is outside the locality theorem; pattern commands are routed by the pattern's own prefix (mirrored, "
+           "those of the real event loop, not enumerated); enable_by_default is a parameter of the model: locality is "
+           "proved for backends that are enabled by default or whose control state was touched before and proved to FAIL otherwise "
+           "(default_disabled_state_leaks); cashews never assigns it (reachable_history_ok) and the correspondence (tasks x backends "
+           "configured as disabled) notices an implementation that starts to; what OTHER tasks see of a backend object created by "
+           "setup(disable=True) in one task (enabled: the state lives in that task's context) is mirrored by the model, not judged; "
+           "middlewares handed to setup(middlewares=...) wrap the default stack from outside and are neither modelled nor exercised; "
+           "the callbacks middleware is modelled as transparent (no callbacks registered in the scenarios); decorated functions "
+           "inside invalidate_further() are judged by the oracle only; setup() while a transaction is open is not generated; "
+           "pattern commands are routed by the pattern's own prefix (mirrored, "
            "not judged); transaction semantics proper are C03/C04; more than 4 tasks / 6 registered prefixes are not sampled")
 
 P_QUICK = ["", "a", "b", "ab", "a:", "ab:c", "ba", ":"]
@@ -65,14 +81,36 @@ EXTRA_KEYS = ["abc", "ab:cd", "a:b", "abab", "c", "bab", "::", "a*", "ab*", "*",
 def longest(regs, key):
     """backend id registered under the longest prefix of `key` (None = not configured) - by max(len), no sorting"""
     table = {}
-    for p, b in regs:
-        table[p] = b
+    for r in regs:
+        table[r[0]] = r[1]
     ms = [p for p in table if key.startswith(p)]
     return table[max(ms, key=len)] if ms else None
 
 
 def nested_depth(regs, key):
-    return len({p for p, _ in regs if key.startswith(p)})
+    return len({r[0] for r in regs if key.startswith(r[0])})
+
+
+def regs_before(sc):
+    """for every step: the registrations [prefix, backend] made before it (initial ones + earlier setup ops)"""
+    cur = [[r[0], r[1]] for r in sc["regs"]]
+    out = []
+    for op in sc["ops"]:
+        out.append(list(cur))
+        if op[0] == "setup":
+            cur.append([op[2], op[3]])
+    out.append(list(cur))
+    return out
+
+
+def reg_opts(reg):
+    return (reg[2] if len(reg) > 2 else None) or {}
+
+
+RETRIEVE_DEL = {"get": "delete", "incr": "delete", "get_many": "delete_many", "get_match": "delete_match"}
+WRITING = {"set", "set_many", "delete", "delete_many", "delete_match", "clear", "set_raw", "incr", "expire", "incr_bits",
+           "set_lock", "unlock", "slice_incr", "set_add", "set_remove", "set_pop"}
+D22F = "D22f:disabled-pattern-read-runs-inner-middlewares"
 
 
 # ---- scenario -> driver lines -----------------------------------------------------------------------------
@@ -83,16 +121,35 @@ def valid(sc) -> bool:
     cms: dict[int, int] = {}
     intx = set()
     fids, calls = set(), set()
+    bids = set()
+    for r in sc["regs"]:
+        if r[1] in bids:
+            return False
+        bids.add(r[1])
+    inv: dict[int, int] = {}
+    invopen: dict[int, int] = {}
     for op in sc["ops"]:
         k, ctx = op[0], op[1]
         if ctx not in live:
             return False
+        if k == "setup":
+            if op[3] in bids or intx:
+                return False
+            bids.add(op[3])
+        elif k == "inv_enter":
+            inv[ctx] = inv.get(ctx, 0) + 1
+            invopen[ctx] = invopen.get(ctx, 0) + 1
+        elif k == "inv_exit":
+            if not invopen.get(ctx):
+                return False
+            invopen[ctx] -= 1
+            inv[ctx] = 0                       # `_INVALIDATE_FURTHER.set(False)`: leaving an inner block ends the outer one too
         if k == "cdef":
             if op[2] in fids or op[3] not in rc.CDECORATORS:
                 return False
             fids.add(op[2])
         elif k == "cstart":
-            if op[2] not in fids or op[3] in calls or ctx in intx:
+            if op[2] not in fids or op[3] in calls or ctx in intx or inv.get(ctx):
                 return False
             calls.add(op[3])
         elif k == "cfin":
@@ -102,6 +159,7 @@ def valid(sc) -> bool:
             if op[2] in live or ctx in intx:
                 return False
             live.add(op[2])
+            inv[op[2]] = inv.get(ctx, 0)
         elif k == "enter":
             cms[ctx] = cms.get(ctx, 0) + 1
         elif k == "exit":
@@ -122,15 +180,19 @@ def valid(sc) -> bool:
 def build_lines(sc, run):
     """protocol lines for the model driver, each tagged with (step index, what it asks)"""
     lines = [("case", None, "case")]
-    for p, b in sc["regs"]:
-        lines.append((f"reg {rc.enc(p)} {b}", None, "reg"))
+
+    def setup_line(ctx, p, b, opts):
+        return f"setup {ctx} {rc.enc(p)} {b} {1 if opts.get('disable') else 0} {1 if opts.get('lazy') else 0}"
+
+    prefixes = []
+    for reg in sc["regs"]:
+        lines.append((setup_line(0, reg[0], reg[1], reg_opts(reg)), None, "reg"))
+        if reg[0] not in prefixes:
+            prefixes.append(reg[0])
     live = [0]
     intx = set()
+    inv = {}
     sample = run["sample"]
-    prefixes = []
-    for p, _ in sc["regs"]:
-        if p not in prefixes:
-            prefixes.append(p)
 
     def view_lines(i):
         for c in live:
@@ -160,7 +222,19 @@ def build_lines(sc, run):
         elif k == "fork":
             lines.append((f"fork {ctx} {op[2]}", i, "ctl"))
             live.append(op[2])
+            inv[op[2]] = inv.get(ctx, False)
             view_lines(i)
+        elif k == "setup":
+            lines.append((setup_line(ctx, op[2], op[3], (op[4] if len(op) > 4 else None) or {}), i, "ctl"))
+            if op[2] not in prefixes:
+                prefixes.append(op[2])
+            view_lines(i)
+        elif k == "inv_enter":
+            inv[ctx] = True
+            lines.append((f"inv {ctx} 1", i, "ctl"))
+        elif k == "inv_exit":
+            inv[ctx] = False
+            lines.append((f"inv {ctx} 0", i, "ctl"))
         elif k in ("disable", "enter"):
             lines.append((f"disable {ctx} {rc.enc(op[2])} {rc.enc_cmds(op[3])}", i, "ctl"))
             view_lines(i)
@@ -180,7 +254,7 @@ def build_lines(sc, run):
             tx = 1 if ctx in intx else 0
             ks = list(dict.fromkeys(op[3])) if op[2] == "set_many" else op[3]      # `pairs` is a mapping
             lines.append((f"cmd {ctx} {tx} {op[2]} " + " ".join(rc.enc(x) for x in ks), i, "cmd"))
-        elif k == "dec" and op[2] == "cache":
+        elif k == "dec" and op[2] == "cache" and not inv.get(ctx):
             lines.append((f"dec {ctx} {rc.enc(op[3])} {op[4]}", i, "dec"))
     for fid in sorted(cfn):
         lines.append((f"cdrain {fid}", ("drain", fid), "cdrain"))
@@ -263,24 +337,63 @@ def res_matches(tmpl, st, calls) -> bool:
 def spec_check(sc, run):
     """the property statement on the implementation's own observations -> list of (step, signature, text)"""
     bad = []
-    regs = sc["regs"]
-    registered = set({p: b for p, b in regs}.values())      # a re-registered prefix replaces its backend
+    regs_at = regs_before(sc)
     written = False
     for i, (op, st) in enumerate(zip(sc["ops"], run["steps"])):
         k = op[0]
-        if k in ("fork", "disable", "enable", "enter", "exit"):
+        regs = regs_at[i]
+        registered = set({r[0]: r[1] for r in regs}.values())      # a re-registered prefix replaces its backend
+        if k in ("fork", "disable", "enable", "enter", "exit", "setup"):
             actor = op[2] if k == "fork" else op[1]
             for c, v in st["views_before"].items():
-                if c != actor and st["views_after"].get(c) != v:
-                    bad.append((i, "context-leak",
-                                f"{op} run by task {op[1]} changed what task {c} sees: {v} -> {st['views_after'].get(c)}"))
+                if c == actor:
+                    continue
+                after = st["views_after"].get(c) or {}
+                # what a task sees of a backend OBJECT that existed before the operation
+                for bid, vb in v["per_backend"].items():
+                    if after.get("per_backend", {}).get(bid) != vb:
+                        bad.append((i, "context-leak",
+                                    f"{op} run by task {op[1]} changed what task {c} sees of backend {bid}: "
+                                    f"{show_view(vb, run['sample'])} -> "
+                                    f"{show_view(after.get('per_backend', {}).get(bid), run['sample'])}"))
+                        break
+                else:
+                    if k != "setup":
+                        if after.get("per_prefix") != v["per_prefix"] or after.get("full") != v["full"]:
+                            bad.append((i, "context-leak",
+                                        f"{op} run by task {op[1]} changed what task {c} sees: {v} -> {after}"))
+                    else:
+                        # a registration changes which backend a prefix stands for - for that prefix only
+                        for pfx, vp in v["per_prefix"].items():
+                            if pfx != op[2] and after.get("per_prefix", {}).get(pfx) != vp:
+                                bad.append((i, "context-leak",
+                                            f"{op} run by task {op[1]} changed what task {c} sees of prefix {pfx!r}: "
+                                            f"{vp} -> {after.get('per_prefix', {}).get(pfx)}"))
             if k == "fork" and st["views_after"].get(op[2]) != st["views_before"].get(op[1]):
                 bad.append((i, "child-does-not-inherit", f"{op}: the new task does not start with its creator's view"))
+            if k == "setup" and "exc" not in st:
+                mine = st["views_after"][op[1]]
+                opts = (op[4] if len(op) > 4 else None) or {}
+                vp, vb = mine["per_prefix"].get(op[2]), mine["per_backend"].get(str(op[3]))
+                if vp is None or vb is None or vp != vb[:-1]:
+                    bad.append((i, "setup-prefix-not-rebound",
+                                f"{op}: after the registration cache.is_disable(..., prefix={op[2]!r}) says "
+                                f"'{show_view(vp + [all(vp)], run['sample']) if vp else None}', the backend registered under it says "
+                                f"'{show_view(vb, run['sample'])}'"))
+                elif bool(opts.get("disable")) != all(vp):
+                    bad.append((i, "setup-disabled-state",
+                                f"{op}: the task that ran it sees is_disable(..., prefix={op[2]!r}) = {vp}"))
         elif k == "cmd":
             name, ks = op[2], op[3]
             log = st["log"]
             calls = rc.outer(log)
+            cmds = [e for e in calls if e["cmd"] != "init"]
+            inits = [e for e in calls if e["cmd"] == "init"]
             dis = {int(b): d for b, d in st["dis"].items()}
+            isinit = {int(b): d for b, d in st.get("isinit", {}).items()}
+            inv = bool(st.get("inv"))
+            # inside invalidate_further() a retrieve command is replaced by the deletion of what it would have read
+            expect_cmd = RETRIEVE_DEL[name] if (inv and name in RETRIEVE_DEL) else name
             routes = [longest(regs, key) for key in ks]
             if name in rc.GLOBAL:
                 expect_nc = False
@@ -298,19 +411,29 @@ def spec_check(sc, run):
                     sig = f"disabled-{name}-raises" if any(dis.values()) else f"{name}-raises"
                     bad.append((i, sig, f"{op}: raised {st['exc']} although no backend command raised it (disabled: {dis})"))
                     continue
-            # (1) every issued command goes to the longest-prefix backend of each of its keys
-            for e in calls:
-                if e["cmd"] != name:
+            # (1) every issued command goes to the longest-prefix backend (by the CURRENT registrations) of each of its keys
+            for e in cmds:
+                if e["cmd"] != expect_cmd:
                     bad.append((i, f"routing-{name}", f"{op}: facade issued {rc.fmt_call(e)}"))
                 for key in e["keys"]:
                     if longest(regs, key) != e["b"]:
-                        bad.append((i, f"routing-{name}", f"{op}: {rc.fmt_call(e)} but the longest prefix of {key!r} is backend {longest(regs, key)}"))
+                        bad.append((i, f"routing-{name}", f"{op}: {rc.fmt_call(e)} but the longest registered prefix of {key!r} "
+                                                          f"belongs to backend {longest(regs, key)} (registrations so far: {regs})"))
                 if not e["keys"] and e["b"] not in registered:
                     bad.append((i, f"routing-{name}", f"{op}: {rc.fmt_call(e)} to an unregistered backend"))
-            # (2) nothing is issued for a backend that reports the command disabled
+            owners = registered if name in rc.GLOBAL else set(routes)
+            for e in inits:
+                if e["b"] not in owners:
+                    bad.append((i, f"routing-{name}", f"{op}: {rc.fmt_call(e)} - backend {e['b']} owns no key of the command"))
+                elif isinit.get(e["b"]) or sum(1 for x in inits if x["b"] == e["b"]) > 1:
+                    bad.append((i, f"init-twice-{name}", f"{op}: {rc.fmt_call(e)} on a backend that was initialised already"))
+            # (2) NOTHING is issued - not the command, not a deletion, not init() - for a backend that reports the command disabled
             for e in calls:
                 if dis.get(e["b"]):
-                    bad.append((i, f"disabled-{name}-issued", f"{op}: {rc.fmt_call(e)} issued although backend {e['b']} reports {name} disabled"))
+                    sig = D22F if (name in ("scan", "get_match") and e["cmd"] != name) else f"disabled-{name}-issued"
+                    bad.append((i, sig, f"{op}: {rc.fmt_call(e)} issued although backend {e['b']} reports {name} disabled"
+                                        + (" (inside invalidate_further())" if inv else "")
+                                        + ("" if isinit.get(e["b"], True) else " (backend was never initialised)")))
             # (3) every enabled backend that owns a key is asked exactly once, with its keys in caller order
             if name in rc.MULTI:
                 want = []
@@ -324,26 +447,29 @@ def spec_check(sc, run):
                             break
                     else:
                         want.append((b, [key]))
-                got = [(e["b"], e["keys"]) for e in calls]
+                got = [(e["b"], e["keys"]) for e in cmds]
                 if sorted(got) != sorted(want):
                     bad.append((i, f"routing-{name}", f"{op}: issued {got}, expected per-backend groups {want}"))
             elif name in rc.GLOBAL:
                 want = sorted(b for b in registered if not dis.get(b))
-                if sorted(e["b"] for e in calls) != want:
-                    bad.append((i, f"routing-{name}", f"{op}: issued to {[e['b'] for e in calls]}, enabled registered backends are {want}"))
+                if sorted(e["b"] for e in cmds) != want:
+                    bad.append((i, f"routing-{name}", f"{op}: issued to {[e['b'] for e in cmds]}, enabled registered backends are {want}"))
             else:
                 b = routes[0]
-                if not dis.get(b) and len(calls) != 1:
-                    bad.append((i, f"routing-{name}", f"{op}: {len(calls)} backend commands issued for an enabled single-key command"))
+                if not dis.get(b) and len(cmds) != 1:
+                    bad.append((i, f"routing-{name}", f"{op}: {len(cmds)} backend commands issued for an enabled single-key command"))
             # (4) shape of the answer
             if "exc" not in st:
                 r = st["r"]
+                replaced = inv and name in RETRIEVE_DEL       # an enabled read answers what invalidate_further() makes of it
                 if name == "get_many":
                     ok = isinstance(r, tuple) and len(r) == len(ks)
                     if ok:
                         for j, (x, b) in enumerate(zip(r, routes)):
                             if dis.get(b):
                                 ok = ok and x is rc.DFLT
+                            elif replaced:
+                                ok = ok and x is None
                             elif "direct" in st:
                                 y = st["direct"][str(b)][j]
                                 if type(y).__name__ == "Bitarray":
@@ -352,8 +478,9 @@ def spec_check(sc, run):
                     if not ok:
                         bad.append((i, "get_many-order" if not any(dis.values()) else "disabled-get_many-shape",
                                     f"{op}: answered {rc.canon(r)}; single-key reads on the owning backends give "
-                                    f"{[rc.canon(st['direct'][str(b)][j]) for j, b in enumerate(routes)] if 'direct' in st else '?'} (disabled: {dis})"))
-                    elif not written and not st["intx"]:
+                                    f"{[rc.canon(st['direct'][str(b)][j]) for j, b in enumerate(routes)] if 'direct' in st else '?'} (disabled: {dis})"
+                                    + (" (inside invalidate_further())" if inv else "")))
+                    elif not written and not st["intx"] and not replaced:
                         for x, key, b in zip(r, ks, routes):
                             exp = rc.DFLT if (dis.get(b) or "!" in key or "*" in key) else f"v{b}|{key}"
                             if not (x is exp or x == exp):
@@ -365,18 +492,18 @@ def spec_check(sc, run):
                         exp_ok = (r is rc.DFLT) if name == "get" else (r == []) if name in ("scan", "get_match") else (r is None)
                         if not exp_ok:
                             bad.append((i, f"disabled-{name}-shape", f"{op}: disabled, answered {rc.canon(r)}"))
-                    elif name == "get" and "direct" in st:
+                    elif name == "get" and "direct" in st and not replaced:
                         y = st["direct"][str(b)][0]
                         if not (r is y or rc.canon(r) == rc.canon(y)):
-                            bad.append((i, "routing-get", f"{op}: read {rc.canon(r)}, the longest-prefix backend holds {rc.canon(y)}"))
+                            bad.append((i, "routing-get", f"{op}: read {rc.canon(r)}, the backend registered under the longest "
+                                                          f"prefix (backend {b}) holds {rc.canon(y)}"))
                         elif not written:
                             exp = rc.DFLT if ("!" in ks[0] or "*" in ks[0]) else f"v{b}|{ks[0]}"
                             if not (r is exp or r == exp):
                                 bad.append((i, "routing-get", f"{op}: read {rc.canon(r)}, the longest-prefix backend was loaded with {exp!r}"))
                 elif name == "get_keys_count" and not isinstance(r, int):
                     bad.append((i, "disabled-get_keys_count-shape", f"{op}: answered {rc.canon(r)}"))
-            if calls and name in ("set", "set_many", "delete", "delete_many", "delete_match", "clear", "set_raw", "incr",
-                                  "expire", "incr_bits", "set_lock", "slice_incr", "set_add", "set_pop"):
+            if any(e["cmd"] in WRITING for e in cmds):
                 written = True          # from here on the stores are no longer the loaded ones
         elif k == "txexit":
             pass
@@ -394,7 +521,11 @@ def spec_check(sc, run):
                     bad.append((i, "decorator-not-executed", f"{op}: cache fully disabled but the body ran {st['execs']} times in {op[4]} calls"))
                 if st["log"]:
                     bad.append((i, "disabled-decorator-issued", f"{op}: cache fully disabled but backend commands were issued: {[rc.fmt_call(e) for e in st['log']][:4]}"))
+            if st.get("log"):
+                written = True
     bad += conc_spec(sc, run)
+    regs = regs_at[-1]
+    registered = set({r[0]: r[1] for r in regs}.values())
     # write-then-read scenarios: final placement of the written keys
     if sc.get("wr"):
         exp: dict[int, set] = {b: set() for b in registered}
@@ -431,7 +562,8 @@ def spec_check(sc, run):
         if op[0] == "cmd":
             for e in st.get("log", []):
                 if e["b"] in st.get("fulloff", []) and e["kind"] == "raw":
-                    bad.append((i, f"disabled-{op[2]}-issued", f"{op}: {rc.fmt_call(e)} reached a fully disabled backend (depth {e['depth']})"))
+                    sig = D22F if (op[2] in ("scan", "get_match") and e["cmd"] != op[2] and e["depth"] <= 1) else f"disabled-{op[2]}-issued"
+                    bad.append((i, sig, f"{op}: {rc.fmt_call(e)} reached a fully disabled backend (depth {e['depth']})"))
     return bad
 
 
@@ -488,6 +620,18 @@ def conc_spec(sc, run):
                 bad.append((i, "decorator-shared-result",
                             f"{where}: {why}; the call ran execution {info['execs'][0]} but was handed {out['r']!r}"))
     return bad
+
+
+def show_view(v, sample) -> str:
+    """a per-backend view [is_disable(), is_disable(cmd) for the sampled commands..., is_full_disable] in words"""
+    if v is None:
+        return "nothing"
+    if all(v):
+        return "fully disabled"
+    if not any(v):
+        return "fully enabled"
+    off = [c for c, d in zip(sample, v[1:-1]) if d]
+    return f"disabled: {','.join(off) or '(other commands)'}"
 
 
 def show_out(st) -> str:
@@ -638,6 +782,20 @@ def shrink(sc, pred):
                 changed = True
                 break
     cur = dict(cur, regs=regs)
+    # drop setup options (configured-disabled, never-initialised) that do not matter
+    for where in ("regs", "ops"):
+        items = [list(x) for x in cur[where]]
+        for j, x in enumerate(items):
+            pos = 2 if where == "regs" else 4
+            if (where == "ops" and x[0] != "setup") or len(x) <= pos or not x[pos]:
+                continue
+            for opt in list(x[pos]):
+                cand = [list(y) for y in items]
+                cand[j][pos] = {k: v for k, v in x[pos].items() if k != opt}
+                if pred(dict(cur, **{where: cand})):
+                    items = cand
+                    x = items[j]
+        cur = dict(cur, **{where: items})
     # shorten key lists of multi-key commands
     ops = [list(o) for o in cur["ops"]]
     for o in ops:
@@ -648,6 +806,13 @@ def shrink(sc, pred):
 
 def report(chk: Check, sc, origin):
     run, s, m = run_case(sc)
+    small = s2 = m2 = None
+    if not s:
+        small = shrink(sc, fails)
+        run, s2, m2 = run_case(small)
+        if s2:
+            sc, s = small, s2           # the reduced scenario contradicts the property itself: report that
+            small = None
     if s:
         sig0 = s[0][1]
         small = shrink(sc, lambda x: fails_spec(x, sig0))
@@ -659,8 +824,6 @@ def report(chk: Check, sc, origin):
                        "origin": origin, "replay_cmd": "./check C17 --replay <this file>"},
                       signature=sig)
     else:
-        small = shrink(sc, fails)
-        run, s2, m2 = run_case(small)
         m2 = m2 or m
         chk.violation(f"correspondence broken: implementation differs from the Route/Disable model ({m2[0][1]}) but the "
                       f"property oracle holds on this scenario",
@@ -824,6 +987,162 @@ def gen_decorators(rng, prefixes, state):
     return {"regs": regs, "ops": ops, "kind": "decorators_" + state}
 
 
+SETUP_HOW = ["kw", "url", "enable_kw", "enable_url"]
+
+
+def rand_opts(rng, p_dis=0.3, p_lazy=0.3):
+    o = {}
+    if rng.random() < p_dis:
+        o["disable"] = rng.choice(SETUP_HOW)
+    if rng.random() < p_lazy:
+        o["lazy"] = True
+    return o
+
+
+def gen_rereg(rng, prefixes):
+    """histories that interleave commands with (re-)registration: keys are used, then a prefix is set up - a new one
+    (possibly capturing keys that were routed elsewhere) or one that is registered already (the backend is replaced;
+    enabled or disabled, initialised or not, by any task) - and the same keys and fresh ones are used again"""
+    regs = mk_regs(prefixes, rng)
+    nb = len(regs)
+    current = list(prefixes)
+    pool = list(dict.fromkeys([p + "k" for p in prefixes] + [p[:-1] for p in prefixes if p] + ["", "zz", "z"]))
+    keys = list(dict.fromkeys([p + "k" for p in prefixes] + [p + "k2" for p in prefixes] + [p + "kk" for p in prefixes]
+                              + ["zz", "zzk", "q"]))
+    live, ops, used = [0], [], []
+
+    def some_cmds(n):
+        for _ in range(n):
+            c = rng.choice(live)
+            x = rng.random()
+            if x < 0.40:
+                k = rng.choice(keys)
+                ops.append(["cmd", c, "get", [k]])
+                used.append(k)
+            elif x < 0.55:
+                k = rng.choice(keys)
+                ops.append(["cmd", c, "set", [k]])
+                used.append(k)
+            elif x < 0.75:
+                ks = [rng.choice(used + keys) for _ in range(rng.randint(2, 4))]
+                ops.append(["cmd", c, "get_many", ks])
+                used.extend(ks)
+            elif x < 0.85:
+                k = rng.choice(keys)
+                ops.append(["cmd", c, rng.choice(["exists", "delete", "incr", "get_expire"]), [k]])
+                used.append(k)
+            else:
+                ops.append(["cmd", c, "get_keys_count", []])
+
+    some_cmds(rng.randint(2, 5))
+    for _ in range(rng.randint(1, 3)):
+        if rng.random() < 0.3 and len(live) < 3:
+            child = len(live)
+            ops.append(["fork", rng.choice(live), child])
+            live.append(child)
+        c = rng.choice(live)
+        p = rng.choice(current) if (current and rng.random() < 0.65) else rng.choice(pool)
+        ops.append(["setup", c, p, nb, rand_opts(rng)])
+        nb += 1
+        if p not in current:
+            current.append(p)
+        for k in rng.sample(used, min(len(used), 3)):
+            ops.append(["cmd", rng.choice(live), rng.choice(["get", "get", "set"]), [k]])
+        if used:
+            ops.append(["cmd", rng.choice(live), "get_many", rng.sample(used, min(len(used), 3)) + [rng.choice(keys)]])
+        some_cmds(rng.randint(1, 3))
+    for c in live:
+        ops.append(["cmd", c, "get_many", list(dict.fromkeys(used))[:6] or ["q"]])
+    return {"regs": regs, "ops": ops, "kind": "rereg"}
+
+
+def gen_rereg_enum():
+    """the minimal re-registration histories, enumerated: key used, prefix registered again (same prefix / a longer one
+    that captures the key / the default prefix; enabled or disabled; by the same or another task), key used again"""
+    for target in ["u:", "u:1", ""]:
+        for dis in [None, "kw", "url"]:
+            for actor in [0, 1]:
+                for first in ["get", "set", "get_many"]:
+                    ops = [["fork", 0, 1], ["cmd", 0, first, ["u:1"] if first != "get_many" else ["u:1", "x", "u:2"]],
+                           ["cmd", 1, "get", ["x"]],
+                           ["setup", actor, target, 2, {"disable": dis} if dis else {}],
+                           ["cmd", 0, "get", ["u:1"]], ["cmd", 1, "set", ["u:1"]], ["cmd", 0, "get_many", ["u:3", "x", "u:1"]],
+                           ["cmd", 1, "get", ["u:3"]], ["cmd", 0, "get_keys_count", []]]
+                    yield {"regs": [["", 0], ["u:", 1]], "ops": ops, "kind": "rereg_enum"}
+
+
+def gen_inv_sweep(prefixes, disabled, target, rng, order, lazy):
+    """every public command while `disabled` ([] = all) is switched off for the backend of `target`, with the calling
+    task inside invalidate_further() and/or on backends that were never initialised"""
+    regs = mk_regs(prefixes, rng)
+    for r in regs:
+        if lazy == "all" or (lazy == "some" and rng.random() < 0.5):
+            r.append({"lazy": True})
+    keys = []
+    for p in prefixes:
+        keys += [p + "k", p + "k2"]
+    keys = list(dict.fromkeys(keys))
+    rng.shuffle(keys)
+    mode = rng.choice(["fast", "locked", "serializable"])
+    body = all_commands(0, keys, rng)
+    if order == "inv_in_disabling":
+        ops = [["enter", 0, target, disabled], ["inv_enter", 0]] + body + [["inv_exit", 0], ["exit", 0]]
+    elif order == "disabling_in_inv":
+        ops = [["inv_enter", 0], ["enter", 0, target, disabled]] + body + [["exit", 0], ["inv_exit", 0]]
+    elif order == "tx":
+        ops = [["enter", 0, target, disabled], ["txenter", 0, mode], ["inv_enter", 0]] + body + \
+              [["inv_exit", 0], ["txexit", 0], ["exit", 0]]
+    elif order == "child":
+        # the parent is inside invalidate_further() and has the commands disabled; a child inherits both
+        ops = [["inv_enter", 0], ["disable", 0, target, disabled], ["fork", 0, 1]] + \
+              [[o[0], 1] + o[2:] for o in body] + [["inv_exit", 0]]
+    else:                                   # "lazy_only": no invalidate_further(), never initialised backends
+        ops = [["disable", 0, target, disabled]] + body
+    return {"regs": regs, "ops": ops, "kind": "inv_" + order}
+
+
+def gen_cfg_enum():
+    """backends CONFIGURED as disabled (all four spellings) and a control call made by ANOTHER task than the observers:
+    a sibling that runs already and the parent must keep seeing the prefix disabled"""
+    ctls = [["enable", ["get"]], ["enable", []], ["disable", ["delete"]], ["enter", ["set"]], ["disable", []]]
+    for how in SETUP_HOW:
+        for kind, cmds in ctls:
+            ops = [["fork", 0, 1], ["fork", 0, 2], ["cmd", 0, "get", ["p:k"]], ["cmd", 2, "get", ["p:k"]],
+                   [kind, 1, "p:", cmds],
+                   ["cmd", 1, "get", ["p:k"]], ["cmd", 1, "set", ["p:k"]],
+                   ["cmd", 0, "get", ["p:k"]], ["cmd", 0, "get_many", ["p:k", "x", "p:k2"]], ["cmd", 0, "set", ["p:w"]],
+                   ["cmd", 2, "get", ["p:k"]], ["cmd", 2, "set", ["p:w2"]], ["dec", 0, "cache", "p:d#0", 2],
+                   ["dec", 2, "cache", "p:d#1", 2], ["isfull", 0]]
+            if kind == "enter":
+                ops.append(["exit", 1])
+            yield {"regs": [["", 0], ["p:", 1, {"disable": how}]], "ops": ops, "kind": "cfg_enum"}
+        # the whole cache configured as disabled: decorated functions must run their body on every call in every task
+        ops = [["fork", 0, 1], ["fork", 0, 2], ["isfull", 2], ["enable", 1, "", ["get"]], ["isfull", 0], ["isfull", 2],
+               ["dec", 0, "cache", "d#0", 3], ["dec", 2, "early", "d#1", 3], ["cmd", 2, "get", ["k"]], ["cmd", 0, "set", ["k"]]]
+        yield {"regs": [["", 0, {"disable": how}]], "ops": ops, "kind": "cfg_enum"}
+
+
+def gen_tasks_cfg(rng, prefixes):
+    """gen_tasks over a table in which backends are configured as disabled, with registrations in between"""
+    sc = gen_tasks(rng, prefixes)
+    for r in sc["regs"]:
+        if rng.random() < 0.6:
+            r.append({"disable": rng.choice(SETUP_HOW)})
+    nb = len(sc["regs"])
+    ops, live = [], {0}
+    for op in sc["ops"]:
+        ops.append(op)
+        if op[0] == "fork":
+            live.add(op[2])
+        if rng.random() < 0.12:
+            ops.append(["setup", rng.choice(sorted(live)), rng.choice(prefixes + [prefixes[0] + "k"]), nb,
+                        rand_opts(rng, 0.6, 0.2)])
+            nb += 1
+    sc["ops"] = ops
+    sc["kind"] = "tasks_cfg"
+    return sc
+
+
 CONC_STATES = ["full", "full_disabling", "full_then_child_enables", "reads_off", "get_off", "one_prefix_off", "none",
                "toggle"]
 
@@ -906,8 +1225,46 @@ def prefix_sets(alphabet, maxsize=4):
 
 def interesting(sc, run):
     tags = set()
-    regs = sc["regs"]
-    for op, st in zip(sc["ops"], run["steps"]):
+    regs_at = regs_before(sc)
+    routed: dict[str, int] = {}              # key -> backend it was routed to when it was last used
+    cfg_dis = {r[1] for r in sc["regs"] if reg_opts(r).get("disable")}
+    setup_by: dict[int, int] = {}
+    for i, (op, st) in enumerate(zip(sc["ops"], run["steps"])):
+        regs = regs_at[i]
+        if op[0] == "setup":
+            opts = (op[4] if len(op) > 4 else None) or {}
+            tags.add("registration_after_commands" if routed else "registration_before_any_command")
+            if any(r[0] == op[2] for r in regs):
+                tags.add("prefix_registered_again" + ("_disabled" if opts.get("disable") else ""))
+            if opts.get("disable"):
+                cfg_dis.add(op[3])
+                setup_by[op[3]] = op[1]
+        if op[0] in ("disable", "enable", "enter", "exit") and "exc" not in st:
+            tgt = longest(regs, st["prefix"] if op[0] == "exit" else op[2])
+            if tgt in cfg_dis and len(st["views_after"]) >= 2:
+                tags.add("control_call_on_configured_disabled_backend_with_other_tasks_watching")
+        if op[0] == "cmd":
+            for key in op[3]:
+                b = longest(regs, key)
+                if key in routed and routed[key] != b and op[2] not in rc.GLOBAL:
+                    tags.add("key_rerouted_by_registration")
+                if op[2] not in rc.GLOBAL:
+                    routed[key] = b
+            dis_ = {int(b): d for b, d in st["dis"].items()}
+            isinit = {int(b): d for b, d in st.get("isinit", {}).items()}
+            owners = [longest(regs, key) for key in op[3]] if op[2] not in rc.GLOBAL else list({r[0]: r[1] for r in regs}.values())
+            if st.get("inv") and any(dis_.get(b) for b in owners if b is not None):
+                tags.add("disabled_command_inside_invalidate_further")
+                if op[2] in RETRIEVE_DEL:
+                    tags.add("disabled_retrieve_command_inside_invalidate_further")
+            if any(dis_.get(b) and not isinit.get(b, True) for b in owners if b is not None):
+                tags.add("disabled_command_on_uninitialised_backend")
+            if any(e["cmd"] == "init" for e in rc.outer(st["log"])):
+                tags.add("backend_initialised_by_enabled_command")
+            if st.get("inv") and any(e["cmd"] in RETRIEVE_DEL.values() and e["cmd"] != op[2] for e in rc.outer(st["log"])):
+                tags.add("enabled_read_replaced_by_deletion")
+            if any(dis_.get(b) and b in cfg_dis and setup_by.get(b, 0) != op[1] for b in owners if b is not None):
+                tags.add("configured_disabled_backend_used_by_task_that_did_not_set_it_up")
         if op[0] == "cmd":
             name, ks = op[2], op[3]
             calls = rc.outer(st["log"])
@@ -1021,7 +1378,7 @@ def generate(chk: Check):
             target = rng.choice(t + [t[-1] + "k"])
             cases.append(("disable_sweep", gen_disable_sweep(t, sub, target, rng, order)))
     # (C) tasks
-    for _ in range(chk.budget(400, 6000)):
+    for _ in range(chk.budget(320, 6000)):
         t = rng.choice(tables + [["", "a:", "ab:c", "b"]])
         cases.append(("tasks", gen_tasks(rng, t)))
     # (D) decorators
@@ -1036,13 +1393,38 @@ def generate(chk: Check):
         for state in CONC_STATES:
             t = rng.choice(tables)
             cases.append(("conc", gen_conc(rng, t, state)))
+    # (H) backends configured as disabled, control calls from other tasks, registrations in between
+    for sc in gen_cfg_enum():
+        cases.append(("cfg_enum", sc))
+    for _ in range(chk.budget(120, 2500)):
+        t = rng.choice(tables + [["", "a:", "ab:c", "b"]])
+        cases.append(("tasks_cfg", gen_tasks_cfg(rng, t)))
+    # (F) histories interleaving commands with (re-)registration
+    for sc in gen_rereg_enum():
+        cases.append(("rereg_enum", sc))
+    for _ in range(chk.budget(100, 1500)):
+        t = rng.choice(tables + [["", "a:", "ab:c", "b"], ["u:", "u:1"]])
+        cases.append(("rereg", gen_rereg(rng, t)))
+    # (G) every command x disabled state inside invalidate_further() and on never-initialised backends
+    inv_orders = ["inv_in_disabling", "disabling_in_inv", "tx", "child", "lazy_only"]
+    inv_subsets = [[]] + [[c] for c in cmds] + [[a, b] for a, b in RETRIEVE_DEL.items()] + \
+                  [["get", "get_many", "get_match", "incr"]]
+    for j, sub in enumerate(inv_subsets):
+        for o, order in enumerate(inv_orders):
+            if not chk.thorough and len(sub) == 1 and sub[0] not in RETRIEVE_DEL and sub[0] not in ("scan", "delete") \
+                    and (j + o) % 5:
+                continue                      # quick: the non-retrieve singles rotate through the orders
+            t = tables[(j + o) % len(tables)] if not chk.thorough else rng.choice(tables)
+            target = rng.choice(t + [t[-1] + "k"])
+            cases.append(("inv_sweep", gen_inv_sweep(t, sub, target, rng, order, ["all", "some", "none"][(j + o) % 3]
+                                                     if order != "lazy_only" else rng.choice(["all", "some"]))))
     return cases, n_sets, len(alphabet)
 
 
 def run(chk: Check) -> int:
     proof = proof_stage(PROP, "driver_c17", chk.thorough) if not getattr(chk, "skip_proof", False) else None
     rc.install()
-    found = 0
+    found = found_spec = found_model = 0
     evaluations = 0
     steps = 0
     distinct = set()
@@ -1078,9 +1460,16 @@ def run(chk: Check) -> int:
             samples.append({"origin": origin.split(":")[0], "regs": sc["regs"], "ops": sc["ops"],
                             "impl": [show_out(st) if ("r" in st or "exc" in st) else "-" for st in run_["steps"]]})
         if s or m:
+            # contradictions of the property are reported in preference to mere model differences
+            if s:
+                found_spec += 1
+            elif found_model >= 2:
+                continue
+            else:
+                found_model += 1
             found += 1
             report(chk, sc, origin)
-            if found >= 3:
+            if found_spec >= 3 or found >= 5:
                 break
     if proof is not None:
         chk.proof_broken(proof, found > 0)
@@ -1096,7 +1485,15 @@ def run(chk: Check) -> int:
                 "Overlapping decorated calls: every decorator variant x equal/different arguments x both release orders of two "
                 "calls (and three equal calls released middle-first) under a full disable (enumerated); sampled: 1-3 functions x "
                 "2-4 calls each x random start/release interleavings x 8 control states incl. control operations between the "
-                "calls and a child task that re-enabled the cache. distinct = distinct (table, op list)",
+                "calls and a child task that re-enabled the cache. Registration histories: key used / prefix registered again "
+                "(same, longer capturing the key, default; enabled or configured disabled; same or other task) / key used again "
+                "(enumerated), random histories of 1-3 registrations among commands of up to 3 tasks (sampled). Middleware stack: "
+                "'all', every single command, every retrieve command with its replacing deletion x {invalidate_further inside "
+                "disabling, disabling inside invalidate_further, inside a transaction, inherited by a child task, never-initialised "
+                "backends only} x every public command (thorough: all; quick: non-retrieve singles rotate through the orders). "
+                "Configured-disabled backends: 4 spellings x 5 control calls by another task with a sibling and the parent "
+                "watching, and a fully configured-disabled cache (enumerated); random task nestings over such tables with "
+                "registrations in between (sampled). distinct = distinct (table, op list)",
         "exhaustive": True,
         "exhaustive_subspace": f"all {n_sets} prefix sets of size <= 4 over a {n_alpha}-string alphabet x all keys (routing); "
                                f"all 28 single-command disabled sets + 'all' x 4 transaction nestings x all {len(rc.INVOKE)} public commands; "
